@@ -28,7 +28,7 @@ def shards(tier):
 
 def gates(c, tier):
     out = [f"generator never produced class {f}" for f in GATE_FEATURES if c.get("feat:" + f, 0) == 0]
-    for k in ("api:client", "api:server", "unencodable-message-refused"):
+    for k in ("api:client", "api:server", "unencodable-message-refused", "forwarded", "forwarded:paged-value-in-another-valid-form"):
         if c.get(k, 0) == 0:
             out.append(f"never exercised {k}")
     return out
@@ -73,6 +73,38 @@ def check_one(m_abs):
     except Exception as e:
         return [(f"pack-exc:{m_abs[0]}:{norm_msg(e)}", f"{type(e).__name__}: {e}")]
     return check_bytes(data, m_abs, m_abs[0])
+
+
+def check_forwarded(m_abs, rseed):
+    """A message that was *received* (in some other valid BER form, C04's freedoms) and is then sent on as it is - the paging
+    loop and the proxy: the bytes the library produces for the decoded object are judged like any others."""
+    from vf.common import rng_for
+    from vf.props import c04
+
+    r = rng_for("c03fwd", rseed)
+    counts = {}
+
+    def cnt(k, n=1):
+        counts[k] = counts.get(k, 0) + n
+
+    root = rfc4511.Enc(explicit_default=lambda site: r.random() < 0.5).message(m_abs)
+    c04.apply_random(root, r, cnt, p_len=0.6, a=m_abs)
+    wire = c04._ser(root)
+    try:
+        m = sl._messages.unpack_ldap_message(sl.asn1.ASN1Reader(wire), sl._messages.PackingOptions())
+        if av.abstract(m) != m_abs:
+            return [], counts  # the decoder's business (C04), nothing to say about the encoder
+    except Exception:
+        return [], counts
+    cnt("forwarded")
+    strict = av.build(m_abs).pack(sl._messages.PackingOptions())
+    if any(c[3] is not None for c in m_abs[3]) and bytes(wire) != bytes(strict):
+        cnt("forwarded:paged-value-in-another-valid-form")
+    try:
+        data = m.pack(sl._messages.PackingOptions())
+    except Exception as e:
+        return [(f"pack-exc:forwarded:{m_abs[0]}:{norm_msg(e)}", f"re-packing a decoded message raised {type(e).__name__}: {e}")], counts
+    return check_bytes(data, m_abs, "forwarded:" + m_abs[0]), counts
 
 
 def api_conversation(r, prof):
@@ -213,6 +245,18 @@ def run_shard(ctx: Ctx, acc: Acc):
             acc.sample({"message": m_abs, "bytes": av.build(m_abs).pack(sl._messages.PackingOptions())[:200]})
         for key, what in check_one(m_abs):
             acc.violation(key, what, {"message": m_abs})
+    for j in range(max(1, n // 40)):
+        r = ctx.rng("fwd", j)
+        m_abs = gv.g_message(r, prof, op=gv.OPS[j % 9])
+        if j % 2 and not any(c[3] is not None for c in m_abs[3]):
+            m_abs = (m_abs[0], m_abs[1], m_abs[2], m_abs[3] + ((gv.PAGED_OID, bool(j & 2), None, ("paged", gv.g_int(r), gv.g_bytes(r, prof))),))
+        acc.case()
+        res, counts = check_forwarded(m_abs, [ctx.seed, ctx.shard, j])
+        for k, v in counts.items():
+            if k.startswith("forwarded"):
+                acc.count(k, v)
+        for key, what in res:
+            acc.violation(key, what, {"forwarded": m_abs, "rseed": [ctx.seed, ctx.shard, j]})
     for j in range(max(1, n // 100)):
         r = ctx.rng("api", j)
         try:
@@ -235,6 +279,8 @@ def run_shard(ctx: Ctx, acc: Acc):
 def replay(w):
     if "unencodable" in w:
         return check_unencodable(to_tuple(w["unencodable"]))
+    if "forwarded" in w:
+        return check_forwarded(to_tuple(w["forwarded"]), w["rseed"])[0]
     if "message" in w:
         return check_one(to_tuple(w["message"]))
     if "bytes" in w and w.get("expected") is not None:
